@@ -35,6 +35,12 @@ func hC13Module() (*Module, *Func) {
 	f := m.NewFunc(hLetter("f"), types.I32, NewParam("", types.I32))
 	b := f.NewBlock("")
 	v := b.NewAdd(f.Params[0], constant.NewInt(types.I32, 1))
+	// a named value whose cached type is out of date when printing starts (the
+	// address space can only be assigned after construction)
+	slot := b.NewAlloca(types.I32)
+	slot.SetName("slot")
+	slot.AddrSpace = 5
+	b.NewLoad(types.I32, slot).SetName("ld")
 	c := b.NewCall(callee)
 	b2 := f.NewBlock("")
 	b.NewBr(b2)
